@@ -636,6 +636,10 @@ const STATIC_NAMES: &[&str] = &[
     // stems that end like a content hash (`-` and eight characters of the hash alphabet); names whose first letter or digit
     // comes after leading punctuation
     "site-settings.css", "img-carousel.js", "report-20260930.js", "x-abcdefgh.css", "theme-dark_red.css", "_1.js", "-2x.png", ".3d.obj", "__404__.html",
+    // a quote directly followed by a hash (ends a one-hash raw string); white space at either end of a name
+    "note \"#1\".txt", "q\"#.css", "\"#.js", " draft.css", "notes.txt ", " 2col.css",
+    // hidden files with a known suffix
+    ".theme.css", ".settings.json", "._logo.png",
     // punctuation in the extension
     "index.html~", "hello.c++", "7.tar-gz", "notes.txt#1", "a.b c", "x.y_z", "x.(1)", "q.a'b", "w.$$", "e.@", "r.{}", "t.[0]", "y.%20", "u.=", "i.!",
 ];
@@ -859,7 +863,7 @@ fn statics_scenario(r: &mut Rng, twin: usize) -> Scenario {
         let j = r.below(i + 1);
         script.swap(i, j);
     }
-    if r.chance(1, 8) && script.iter().all(|o| !matches!(o, SOp::T(_))) {
+    if r.chance(1, 8) && !script.is_empty() && script.iter().all(|o| !matches!(o, SOp::T(_))) {
         // the handle is dropped by unwinding: everything added before is still written out
         script.push(SOp::P);
     }
@@ -1032,7 +1036,8 @@ fn dead_scenario(r: &mut Rng) -> Scenario {
 
 fn shuffled_twin(r: &mut Rng, s: &Scenario) -> Scenario {
     // same tree, different creation order (on tmpfs read_dir yields reverse creation order)
-    let mut writes: Vec<Step> = s.steps.iter().filter(|x| !matches!(x, Step::Run)).cloned().collect();
+    // (only what precedes the first run: later steps are edits between runs of the original, not part of the tree)
+    let mut writes: Vec<Step> = s.steps.iter().take_while(|x| !matches!(x, Step::Run)).cloned().collect();
     for i in (1..writes.len()).rev() {
         let j = r.below(i + 1);
         writes.swap(i, j);
@@ -1344,7 +1349,8 @@ pub fn run(args: &crate::Args) {
                     // ---- C10 / C18 on the clean build: exactly the expected files, each the compiled template
                     check_tree(&root, &clean_root.join("out"), sc, &clean, &mut generated, &mut |t, kd, d| fail(t, kd, d, &mut orc), &mut stats);
                     // ---- C18: twins
-                    if sc.twin != 0 && (sc.kind == "tree" || sc.kind == "twin" || sc.kind == "statics") {
+                    // (the first run of a scenario only: later runs follow edits that are not part of the shared tree)
+                    if sc.twin != 0 && k == 1 && (sc.kind == "tree" || sc.kind == "twin" || sc.kind == "statics") {
                         let norm: BTreeMap<String, Vec<u8>> = clean
                             .after
                             .iter()
